@@ -98,6 +98,23 @@ def _fn_sir2():
     return {"coq": text, "translated": done, "refused": failed}
 
 
+@unit("fn_ip2")
+def _fn_ip2():
+    """_anonymize_match and anonymize_ip_addr: the text-level glue of the IP stage.  The anonymizer's methods are uninterpreted here (they are refined
+    in their own right in G_fn_ip.v / refine/Ref{Anon,Deanon,Should,Mask}.v): answered by the py_call parameter, anonymize/deanonymize with the updated object"""
+    import os
+
+    sys.path.insert(0, os.path.dirname(os.path.abspath(__file__)))
+    import translate
+    import netconan.ip_anonymization as pm
+
+    text, done, failed = translate.translate_module(
+        pm.__file__, pm, wanted=["_anonymize_match", "anonymize_ip_addr"],
+        method_oracles=("make_addr", "should_anonymize", "make_addr_from_int", "get_addr_pattern", "group"),
+        method_thread_oracles=("anonymize", "deanonymize"), sub_callbacks=True)
+    return {"coq": text, "translated": done, "refused": failed}
+
+
 @unit("fn_files")
 def _fn_files():
     """FileAnonymizer.anonymize_io: the loop over the lines and the order of the five stages.  The secrets stage is the generated replace_matching_item;
